@@ -84,7 +84,9 @@ func (e *fnEnc) call(in ssa.Instruction, cc *ssa.CallCommon) []Term {
 			e.V.missing[key]++
 			return res
 		}
-		return e.applyContract(con, args, mkRes("r."+shortKey(key)), pos, "true", shortKey(key))
+		res := e.applyContract(con, args, mkRes("r."+shortKey(key)), pos, "true", shortKey(key))
+		e.fmtSpecial(key, cc, args, res)
+		return res
 	}
 	// indirect call through a function value
 	f := e.get(cc.Value)
@@ -500,4 +502,51 @@ func (e *fnEnc) sortSlice(in ssa.Instruction, cc *ssa.CallCommon, args []Term) [
 	e.storeDesc(d, Term{ns, srt, s.T})
 	e.note("sort.Slice modelled as re-assignment of the sorted permutation (A-SORT)")
 	return nil
+}
+
+// fmtSpecial adds what bxv derives from a constant format string: the
+// expansion of Sprintf, and the %w wrapping of Errorf (A-FMT).
+func (e *fnEnc) fmtSpecial(key string, cc *ssa.CallCommon, args []Term, res []Term) {
+	switch key {
+	case "fmt.Sprintf":
+		if f, ok := constFormat(cc.Args[0]); ok {
+			if t, ok := e.expandFormat(f, args[1].S); ok {
+				e.assert(fmt.Sprintf("(=> %s (= %s %s))", e.curReach, res[0].S, t))
+				return
+			}
+		}
+		e.note("fmt.Sprintf with a non-constant or unsupported format: result abstracted")
+	case "fmt.Errorf":
+		f, ok := constFormat(cc.Args[0])
+		if !ok {
+			e.note("fmt.Errorf with a non-constant format: wrapping abstracted")
+			return
+		}
+		pieces, ok := parseFormat(f)
+		if !ok {
+			e.note("fmt.Errorf format not understood: wrapping abstracted")
+			return
+		}
+		vals := e.litVals[args[1].S]
+		var nf, syn []string
+		for _, p := range pieces {
+			if p.verb == 'w' && p.arg < len(vals) {
+				a := e.get(vals[p.arg])
+				if a.Sort == "Any" {
+					nf = append(nf, fmt.Sprintf("(isNotFound %s)", a.S))
+					syn = append(syn, fmt.Sprintf("(isSyntax %s)", a.S))
+				}
+			}
+		}
+		or := func(xs []string) string {
+			switch len(xs) {
+			case 0:
+				return "false"
+			case 1:
+				return xs[0]
+			}
+			return "(or " + strings.Join(xs, " ") + ")"
+		}
+		e.assert(fmt.Sprintf("(=> %s (and (= (isNotFound %s) %s) (= (isSyntax %s) %s)))", e.curReach, res[0].S, or(nf), res[0].S, or(syn)))
+	}
 }
